@@ -10,6 +10,7 @@ import Pushr.Spec.C09
 import Pushr.ListRec
 import Pushr.Spec.C15
 import Pushr.Spec.C10
+import Pushr.Unregistered
 /-! `exec` / `step` requests: one observed transition of the real interpreter state. -/
 open Pushr Codec
 
@@ -125,6 +126,15 @@ def c07Eval : PropEval := fun i pre post =>
 
 /-- C08: CODE instructions against the points-based statements -/
 def c08Eval : PropEval := fun i pre post =>
+  -- SUBST: the point accounting of "all and only the structural matches", on the implementation's result
+  let substFail : Option String := match i, post, pre.code with
+    | .code .subst, some post, target :: sub :: pat :: _ =>
+      (match post.code with
+       | r :: _ => if C08.substOk target sub pat r then none
+                   else some ("SUBST must exchange exactly the " ++ toString (C08.countMax target pat) ++ " maximal structural match(es) of the pattern for the substitute (sizes: target " ++ toString target.size ++ ", pattern " ++ toString pat.size ++ ", substitute " ++ toString sub.size ++ ", result " ++ toString r.size ++ ")")
+       | [] => some "SUBST emptied the CODE stack")
+    | _, _, _ => none
+  if substFail.isSome then substFail else
   match i, post with
   | .code .insert, some post =>
     (match pre.int, pre.code with
@@ -202,6 +212,24 @@ def c09Eval : PropEval := fun i pre post =>
           if ordered && C09.sameMultiset (v.map totalKey) (w.map totalKey) then none
           else some "SORT must yield an ordered permutation of the vector"
         | _, _ => none)
+     | .f, .sum | .f, .mean =>
+       -- the value is a float fold (rounding depends on the order of additions): what the documentation fixes is the
+       -- SHAPE - one FLOAT pushed, the vector left in place, nothing else touched - and, for vectors of small
+       -- dyadic numbers (every partial sum exact), the value itself
+       (match pre.fvec with
+        | v :: _ =>
+          let shapeOk := post.float.length == pre.float.length + 1 && encState { post with float := pre.float } == encState pre
+          if !shapeOk then some ("FLOATVECTOR." ++ (if o == .sum then "SUM" else "MEAN") ++ " must push exactly one FLOAT and leave everything else as it is")
+          else
+            let small := v.all fun x => x.isFinite && (x * 4).toInt32.toFloat32 == x * 4 && Float32.abs x < 65536
+            if small && o == .sum then
+              let exact : Int := (v.map fun x => (x * 4).toInt32.toInt).sum
+              (match post.float with
+               | r :: _ => if (r * 4).toInt32.toInt == exact && r.isFinite then none
+                           else some "FLOATVECTOR.SUM of exactly summable elements must be their sum"
+               | [] => none)
+            else none
+        | [] => none)
      | _, _ =>
        -- every other non-random vector instruction: the closed form of Spec/C09 (length + every element)
        (match C09.vecExpect t o pre with
@@ -554,6 +582,37 @@ def handleExec : List Sx → String
     | some pre, some nid, some obs =>
       let pre := { pre with nextId := nid }
       judge (Instr.ofName name) pre obs pre
+    | _, _, _ => "bad state"
+  | _ => "bad shape"
+
+/-- `( unreg NAME PRE POST|PANIC NEXTID )`: one of the two instruction functions the crate ships unregistered
+(`INTVECTOR.*`, `INTVECTOR./`), registered by the harness with the public `InstructionSet::add` -/
+def handleUnreg : List Sx → String
+  | [.atom name, pre, post, nid] =>
+    match decState pre, decNat nid, decObs post with
+    | some pre, some nid, some obs =>
+      let pre := { pre with nextId := nid }
+      let m := if name == "INTVECTOR.*" then semIntVecMul pre else semIntVecDiv pre
+      let ms := encState m
+      let os := match obs with
+        | some o => encState o
+        | none => "PANIC"
+      let mm := if ms == os then "" else " MISMATCH model= " ++ ms
+      -- the README rule, evaluated on the implementation's outcome (independent of the loop of the model)
+      let pf := match obs with
+        | none => " PROPFAIL C01 implementation panicked PROPFAIL C09 " ++ name ++ " crashed instead of producing the documented vector or nothing"
+        | some o =>
+          (match pre.ivec, pre.int with
+           | top :: second :: l, off :: _ =>
+             let zeroUsed := top.zipIdx.any fun (t, i) =>
+               let j : Int := (i : Int) + off.toInt
+               0 ≤ j && j.toNat < second.length && t == 0
+             let want : List (List Int32) :=
+               if name == "INTVECTOR.*" then overlapSpec (· * ·) second top off.toInt :: l
+               else if zeroUsed then l else overlapSpec (· / ·) second top off.toInt :: l
+             if o.ivec == want then "" else " PROPFAIL C09 " ++ name ++ " must follow the README overlap rule (a used zero divisor: no result)"
+           | _, _ => "")
+      if mm == "" && pf == "" then (if os == encState pre then "ok T" else "ok N") else "no" ++ mm ++ pf
     | _, _, _ => "bad state"
   | _ => "bad shape"
 
